@@ -357,6 +357,9 @@ def run_multi(ctx, C, typ, syn, rng, orig_sc, can_patch):
         ctx.violation('caller-dict-mutated', case, {'user': repr(u)[:300], 'global': repr(g)[:300]})
 
 
+DEFAULT_SYN = {'markup': 'html', 'stylesheet': 'css'}
+
+
 def run_shard(desc, ctx):
     import emmet.config as C
     from emmet.config import Config
@@ -368,7 +371,8 @@ def run_shard(desc, ctx):
     if desc.get('unknown'):
         for typ, plain in (('markup', 'html'), ('stylesheet', 'css')):
             # (the name of an abbreviation TYPE is not the name of a syntax either: the built-in section of that type holds type defaults, not syntax defaults)
-            for unk in ('nosuch', 'my-syntax', 'stylesheet', 'markup', 'Html'):
+            # ... nor is a syntax of the OTHER type (inline CSS in an XSL / Pug file, the document's syntax passed through)
+            for unk in ('nosuch', 'my-syntax', 'stylesheet', 'markup', 'Html') + (('xsl', 'pug', 'jsx', 'html') if typ == 'stylesheet' else ('sass', 'stylus', 'css')):
                 ctx.ev('unknown-syntax')
                 ctx.mon('oracle:unknown-syntax')
                 a = Config({'type': typ, 'syntax': unk})
@@ -378,9 +382,26 @@ def run_shard(desc, ctx):
                     if digest(getattr(a, kind)) != digest(getattr(b, kind)) or digest(getattr(a, kind)) != digest(getattr(c, kind)):
                         ctx.violation('unknown-syntax', {'type': typ, 'syntax': unk, 'kind': kind}, {'note': 'differs from type defaults'})
                 ctx.seen(('unk', typ, unk))
+        # a layer whose table (or whole section) is None does not mention any key: the same as leaving it out; `type` / `syntax` None are absent too
         import emmet
+        for typ, ab in (('markup', 'a>br'), ('stylesheet', 'p10+m0-a')):
+            base = core.call(emmet.expand, ab, {'type': typ})
+            g = {typ: {'options': {'output.indent': '  '}}}
+            baseg = core.call(emmet.expand, ab, {'type': typ}, g)
+            for u, gl, want in (({'type': typ, 'options': None}, None, base), ({'type': typ, 'snippets': None, 'variables': None}, None, base),
+                                ({'type': typ}, {typ: None}, base), ({'type': typ}, {typ: {'options': None, 'snippets': None}}, base),
+                                ({'type': typ, 'syntax': None}, None, base), ({'type': typ, 'syntax': None}, g, baseg), ({'type': typ, 'options': None}, g, baseg),
+                                ({'type': typ}, dict(g, **{DEFAULT_SYN[typ]: None}), baseg)):
+                ctx.ev('none-layer')
+                ctx.mon('oracle:none-is-absent')
+                r = core.call(emmet.expand, ab, u, gl) if gl is not None else core.call(emmet.expand, ab, u)
+                if r[0] != want[0] or (r[0] == 'ok' and r[1] != want[1]):
+                    ctx.violation('none-layer-not-absent', {'type': typ, 'abbr': ab, 'user': u, 'global': gl}, {'expected': repr(want[1])[:120], 'actual': repr(r[1])[:120]})
+        r = core.call(emmet.expand, 'a', {'type': None})
+        if r != core.call(emmet.expand, 'a', {}):
+            ctx.violation('none-layer-not-absent', {'abbr': 'a', 'user': {'type': None}}, {'actual': repr(r[1])[:120]})
         for typ, ab, plain in (('markup', 'ul>li*2', 'html'), ('stylesheet', 'p10+m0-a', 'css'), ('markup', 'p+bd', 'html'), ('stylesheet', 'bd+p', 'css')):
-            for unk in ('nosuch', 'stylesheet', 'markup'):
+            for unk in ('nosuch', 'stylesheet', 'markup') + (('xsl', 'pug', 'jsx') if typ == 'stylesheet' else ('sass', 'stylus')):
                 ctx.ev('unknown-syntax')
                 ra = core.call(emmet.expand, ab, {'type': typ, 'syntax': unk})
                 rb = core.call(emmet.expand, ab, {'type': typ, 'syntax': plain})
